@@ -278,6 +278,7 @@ def run(ctx):
                          'mirror, unpatched real code vs the end-to-end Lean model with the Lean BLAKE2b/SHA-256 (full text compared). '
                          'String-level extras (end-to-end stream only): a corrupted item, items of another kind (block hash, tz1 address = '
                          '20-byte leaf), a corrupted predecessor, negative round with a bad predecessor. '
+                         'Lists with repeated items (all-equal, adjacent and distant repeats, repeated inner lists) in both tiers. History stream: a rejected call (malformed item at a random index, bad round) followed by ordinary calls in the same process. '
                          'non-trivial = at least 3 items somewhere (padding and/or the odd-count copy step are exercised)')
     ctx.assumptions += [
         'BLAKE2b-256 is abstract in the general theorems (arbitrary H); the `…_concrete` corollaries and the end-to-end stream use the '
@@ -303,6 +304,16 @@ def run(ctx):
     cases = []
     for n in range(0, 301):
         cases.append(('L', items(n)))
+    # lists with repeated operation hashes (a block may not contain one twice, the functions are defined on any list): adjacent
+    # and distant repeats, all-equal lists, repeated inner lists
+    h0 = rng.bytes_(32)
+    for n in list(range(1, 10)) + [16, 17]:
+        cases.append(('L', [h0] * n))
+    for n in (list(range(2, 41)) + [64, 65, 128]) if quick else []:
+        cases.append(('L', items(n, dup=True)))
+    g0 = items(3)
+    cases += [('LL', [[h0, h0], [h0], [h0, h0]]), ('LL', [g0, g0]), ('LL', [g0, [], g0, g0]), ('LL', [items(5, dup=True), items(4, dup=True)]),
+              ('P', rng.bytes_(32), 0, [h0, h0]), ('P', rng.bytes_(32), 7, items(6, dup=True)), ('P', h0, 1, [h0, h0, h0])]
     if not quick:
         for n in range(0, 301):
             cases.append(('L', items(n, dup=True)))
@@ -401,3 +412,43 @@ def run(ctx):
             dd = dict(d)
             dd.pop('items', None)
             ctx.mismatch('end-to-end-text', dd, got_text, model_real[idx])
+
+    # stream 4: call history — a call that is REJECTED (malformed item at a random position, bad predecessor, round out of range)
+    # and then, in the same process, ordinary calls: a rejected call leaves nothing behind
+    n_hist = 150 if quick else 3000
+    bad_after = None
+    for k in range(n_hist):
+        n_good = rng.choice([1, 1, 2, 3, 5, 8])
+        goods = [b58('o', rng.bytes_(32)) for _ in range(n_good)]
+        pos = rng.randrange(0, n_good + 1)
+        kind_bad = rng.choice(['checksum', 'other-kind', 'not-base58', 'not-str', 'truncated'])
+        bad = {'checksum': bad_item, 'other-kind': other_kind, 'not-base58': 'not base58 0OIl', 'not-str': None, 'truncated': good[0][:-1]}[kind_bad]
+        lst = goods[:pos] + [bad] + goods[pos:]
+        fn = rng.choice(['L', 'L', 'LL', 'P', 'P-round'])
+        try:
+            if fn == 'L':
+                ph.operation_list_hash(lst)
+            elif fn == 'LL':
+                ph.operation_list_list_hash([goods, lst, goods[:1]][:rng.choice([2, 3])])
+            elif fn == 'P':
+                ph.block_payload_hash(pred, rng.randrange(0, 100), lst)
+            else:
+                ph.block_payload_hash(pred, rng.choice([-1, 2 ** 32]), goods)
+            rejected = False
+        except Exception:      # noqa: BLE001 — any rejection will do
+            rejected = True
+        ctx.count('history-rejected-call', f'{fn}:{kind_bad if fn != "P-round" else "round"}@{"first" if pos == 0 else "later"}:{"raised" if rejected else "accepted"}')
+        follow = [rng.choice([('L', items(rng.choice([0, 0, 1, 2, 3, 4, 7]))), ('LL', [items(rng.choice([0, 1, 2, 3])) for _ in range(rng.randrange(0, 3))]),
+                              ('P', rng.bytes_(32), rng.randrange(0, 1000), items(rng.choice([0, 1, 2, 5])))]) for _ in range(2)]
+        for j, c in enumerate(follow):
+            ctx.case({'history': f'after a rejected {fn} call ({kind_bad} at {pos})', 'then': describe(c), 'step': j}, nontrivial=True)
+            got, want = call_impl(c), ref_impl(c)
+            if got != want and bad_after is None:
+                bad_after = (fn, kind_bad, pos, n_good, j, c, got, want)
+    if bad_after is not None:
+        fn, kind_bad, pos, n_good, j, c, got, want = bad_after
+        md = describe(c, full=True)
+        ctx.violation(f"after-rejected-call: {md['fn']}",
+                      f"call #{j + 1} after a rejected {'operation_list_hash' if fn == 'L' else 'operation_list_list_hash' if fn == 'LL' else 'block_payload_hash'} "
+                      f"call ({kind_bad} item at index {pos} of {n_good + 1}): {md['fn']} with {md.get('n', md.get('shape'))} item(s) returns {got}, Merkle root is {want} ",
+                      {'rejected_call': {'fn': fn, 'bad_item': kind_bad, 'index': pos, 'good_items': n_good}, 'then': md, 'got': got, 'expected': want})
